@@ -311,3 +311,43 @@ func VerifC11CustomNode() {
 	nd.Assert(seen == 3, "C11: exactly the fields carrying a recognised tag become properties")
 	nd.Cover("custom processor sharing a built-in node type")
 }
+
+// C11/C09: a nil pointer field whose type announces its configuration prefix through a VALUE-receiver
+// Prefix() is scanned like one with a pointer receiver: no panic (the scan runs in goroutines of the
+// start-up phase, a panic there kills the process), and the field becomes a prefix point.
+type vCfgByValue struct{ Host string }
+
+func (c vCfgByValue) Prefix() string { return "srv" }
+
+type vCfgByPointer struct{ Host string }
+
+func (c *vCfgByPointer) Prefix() string { return "srv" }
+
+type vNilCfgHolder struct {
+	V *vCfgByValue
+	P *vCfgByPointer
+}
+
+func VerifC11NilConfigPointer() {
+	pa := NewPropertiesAwarePostProcessors().(*propertiesAwarePostProcessors)
+	reg := support.DefaultDefinitionRegistry()
+	h := &vNilCfgHolder{}
+	if nd.Bool() {
+		h.V = &vCfgByValue{}
+		h.P = &vCfgByPointer{}
+	} else {
+		nd.Cover("nil configuration-properties pointers")
+	}
+	var err error
+	panicked := nd.Catch(func() { err = pa.PostProcessDefinitionRegistry(reg, h, "h") })
+	nd.Assert(!panicked, "C09: scanning a component never panics")
+	nd.Assert(err == nil, "scan ok")
+	n := 0
+	for _, p := range reg.GetMetaByName("h").GetConfigurationProperties() {
+		if p.Tag == "prefix" {
+			n++
+			nd.Assert(p.TagVal == "srv", "C11: a configuration-properties field is a prefix point with the prefix its type announces")
+		}
+	}
+	nd.Assert(n == 2, "C11: both configuration-properties fields are recognised, whatever receiver Prefix() has")
+}
